@@ -70,6 +70,23 @@ def r1(ctx):
     adds = [s for _, _, s in d.statements() if s["k"] == "assign" and s["r"][0] == "bin" and s["r"][1] in ("Add", "AddWithOverflow")]
     okadd = [s for s in adds if any(o[0] == "const" and o[1].get("val") == 4 for o in (s["r"][2], s["r"][3]))]
     ctx.check(len(okadd) >= 2, "C09.R1", DEC, "bounds-are-4+frame_len", "%d computations of 4 + frame_len (availability test, slice end, advance)" % len(okadd), d.sp)
+    # the bytes handed to the parser are exactly the declared frame: src[4 .. 4 + frame_len]
+    fb = [(bi, t) for bi, t in d.calls() if t["f"].get("name") == "from_bytes"]
+    okslice = False
+    det = "no from_bytes call"
+    if len(fb) == 1:
+        det = "parser input is not an index of src with a closed range"
+        for o in trace(d, fb[0][1]["a"][0], through_calls=False):
+            if o.kind == "call" and o.data["f"].get("name") == "index":
+                full = o.data["f"].get("full", "")
+                rng = o.data["a"][1]
+                lv = leaves(d, rng, expand_calls=False)
+                has4 = any(True for s2 in [0])
+                closed = "ops::Range<usize>" in full and "RangeFrom" not in full
+                end_from_len = any(x.kind == "call" and x.data["f"].get("name") == "from_be_bytes" for x in lv)
+                okslice = closed and end_from_len
+                det = "parser input = src[%s] (closed range: %s, end derives from the length prefix: %s)" % (full.split("Index<")[-1].split(">")[0] if "Index<" in full else "?", closed, end_from_len)
+    ctx.check(okslice, "C09.R1", DEC, "parses-exactly-the-declared-frame", det, fb[0][1]["sp"] if fb else d.sp)
     # too-large frames return Err
     errs = [p for p in P.explore(d) if p.ret[0] == "variant" and p.ret[1] == "Err"]
     ok = any(any("MAX_MESSAGE_SIZE" in str(k) for k, v in p.decisions) for p in errs)
